@@ -23,7 +23,7 @@ def xdefs():
 def scen(i, name, n):
     uw = {"p_semaphore_acquire.0": n + 2, "pp_semaphore_create_handle.0": n + 2, "pp_semaphore_create_handle.1": n + 2,
           "pp_shm_create_handle.0": n + 2, "pp_shm_create_handle.1": n + 2}
-    return Q("ipc_eintr_%s_max%d" % (name, n), "harness/C19_ipc.c", units=UNITS, models=KM, defs=["SCEN=%d" % i, "EINTR_MAX=%d" % n] + xdefs(),
+    return Q("ipc_eintr_%s_max%d" % (name, n), "harness/C19_ipc.c", units=UNITS, models=KM, hdefs=["SCEN=%d" % i, "EINTR_MAX=%d" % n] + xdefs(),
              includes=["models/redir_ipc.h"], unwindset=uw, timeout=900,
              funcs=["p_semaphore_new", "pp_semaphore_create_handle", "p_semaphore_acquire", "p_shm_new", "pp_shm_create_handle", "p_shm_lock"],
              bounds={"eintr_per_call": n, "processes": 2})
